@@ -139,7 +139,10 @@ def run(ctx):
             N, W = ctx.rng.choice([1, 2, 3]), ctx.rng.choice([1, 2, 3])
             n = N * W
             rs = np.random.RandomState(ctx.rng.randrange(2 ** 31))
-            S = prep(np.atleast_2d(np.cov(rs.randn(3 * n + 2, n).T)), i % 2 == 0, i % 3 == 0)
+            S0 = np.atleast_2d(np.cov(rs.randn(3 * n + 2, n).T))
+            if i % 8 == 3:
+                S0[0, 0] = np.nan                # the call may raise; the argument must stay untouched
+            S = prep(S0, i % 2 == 0, i % 3 == 0)
             lam = prep(np.full((n, n), 0.2), i % 2 == 0, i % 3 == 1) if i % 2 == 1 or i % 4 == 0 else 0.2
             cb = (lambda rho, rp, tp, rd, td: rho * 1.5 if rp > rd else rho) if i % 5 == 0 else None
             b = (snap(S), snap(lam))
@@ -154,11 +157,17 @@ def run(ctx):
                 ctx.violation("impl-violation", "optimiser entry point modified its covariance / lambda argument",
                               {"admm": True, "i": i}, {"site": "admm-args"})
             T, K = ctx.rng.randint(1, 20), ctx.rng.randint(1, 4)
-            table = prep(rs.randn(T, K), i % 2 == 0, i % 3 == 2)
+            raw_table = rs.randn(T, K)
+            if i % 4 in (1, 2):                 # non-finite entries (degenerate clusters): still the caller's array
+                for _ in range(1 + T // 6):
+                    raw_table[rs.randint(T), rs.randint(K)] = [np.nan, np.inf, -np.inf, -0.0][rs.randint(4)]
+            table = prep(raw_table, i % 2 == 0, i % 3 == 2)
             beta = prep(np.abs(rs.randn(T)), i % 2 == 0, False) if i % 2 == 0 else 2.0
             b = (snap(table), snap(beta))
             try:
-                cla.assign_point_cluster_labels(table, beta)
+                with warnings.catch_warnings():
+                    warnings.simplefilter("ignore")
+                    cla.assign_point_cluster_labels(table, beta)
             except Exception as e:
                 if "read-only" in str(e):
                     ctx.violation("impl-violation", f"labelling step rejected read-only input: {e}", {"kernel": True, "i": i}, {"site": "readonly"})
